@@ -1348,7 +1348,7 @@ class ExcAnalysis:
             # Class.method(obj, ...) passes self explicitly
             explicit_self = isinstance(n.func, ast.Attribute) and isinstance(
                 self.prog.resolve_expr_symbol(fn.module, n.func.value), ClassInfo)
-            skip_self = bound_self and not explicit_self
+            skip_self = bound_self and (not explicit_self or callee.is_classmethod)
         if callee.is_property:
             return
         params = pos[1:] if skip_self else pos
